@@ -617,6 +617,15 @@ class Interp:
             return out
         return self.symbolic_comprehension(node, g, it, fr)
 
+    def e_GeneratorExp(self, node, fr):
+        """a generator expression handed straight to any/all/sum/min/max/sorted/join/list/set/tuple: evaluated like the list
+        comprehension (the consumer sees the same items in the same order). Laziness is NOT modelled: if producing an item could
+        raise, a short-circuiting consumer might never have asked for it, so that case leaves the subset instead of guessing"""
+        try:
+            return self.e_ListComp(node, fr)
+        except Raised:
+            raise Unsupported('exception while producing the items of a generator expression (lazy evaluation is not modelled)')
+
     def symbolic_comprehension(self, node, g, it, fr):
         """[f(x) for x in s] -> map ; [x for x in s if P(x)] -> filter (fresh sequence + axioms)"""
         enum = isinstance(it, EnumVal)
